@@ -307,6 +307,49 @@ func c06(r *Run) {
 		for _, site := range findIns(ro.onHup, func(i ssa.Instruction) bool { return isCall(i, ro.closeCallback) }) {
 			r.guarded("C06.R5:hup-defers-to-unstarted-onconnect", "on hang-up the poller runs the close callbacks itself only when OnConnect has started (state != none) or none is installed: otherwise input already buffered (and deferred to the OnConnect task by onRequest()) would never be offered", ro.onHup, site, anyAtom(stateNotNone, onConnUnset), nil, "guarded by state!=none | onConnect==nil")
 		}
+		// ... and when OnConnect is out of the way, a hang-up still offers what is buffered: onHup runs the callbacks itself only
+		// after it saw the input empty / no handler, or after its attempt to start a handler task failed on the processing lock
+		// (the running task then takes over: C06.R2 / C06.R4); the unfinished-OnConnect branch is the rule above
+		{
+			isOnReqLoad := func(v ssa.Value) bool {
+				c, ok := v.(*ssa.Call)
+				if !ok {
+					return false
+				}
+				a := asAtomic(c)
+				return a != nil && a.Op == "Load" && structFieldOfAddr(a.Addr) == "onEvent.onRequestCallback"
+			}
+			noHandlerHup := func(v ssa.Value) (bool, bool) {
+				if e, ok := v.(*ssa.Extract); ok && e.Index == 1 {
+					if ta, ok := e.Tuple.(*ssa.TypeAssert); ok && ta.CommaOk && isOnReqLoad(ta.X) {
+						return false, true
+					}
+				}
+				if b, ok := v.(*ssa.BinOp); ok && (b.Op == token.EQL || b.Op == token.NEQ) {
+					for _, side := range [][2]ssa.Value{{b.X, b.Y}, {b.Y, b.X}} {
+						if isOnReqLoad(side[0]) && isNilConst(side[1]) {
+							return b.Op == token.EQL, true
+						}
+					}
+				}
+				return false, false
+			}
+			typedNoHandler := func(v ssa.Value) (bool, bool) {
+				if b, ok := v.(*ssa.BinOp); ok && (b.Op == token.EQL || b.Op == token.NEQ) {
+					for _, side := range [][2]ssa.Value{{b.X, b.Y}, {b.Y, b.X}} {
+						if namedTypeName(side[0].Type()) == "OnRequest" && isNilConst(side[1]) {
+							return b.Op == token.EQL, true
+						}
+					}
+				}
+				return false, false
+			}
+			stateNone := cmpAtom(isCallOf(getState), isConstEq(stNone), eqRel)
+			taskBusy := callResultAtom(ro.onProcess, false)
+			for _, site := range findIns(ro.onHup, func(i ssa.Instruction) bool { return isCall(i, ro.closeCallback) }) {
+				r.guarded("C06.R4:hup-offers-input:"+siteKey(w, site), "on hang-up the poller runs the close callbacks itself only after it saw the input buffer empty (or no handler), or after its attempt to start a handler task failed on the processing lock (the running task then offers the input and tears down): winning the lock inside a task's unlock window must not drop input that was delivered while the task still held it", ro.onHup, site, anyAtom(lenZeroFact(true), noHandlerHup, typedNoHandler, taskBusy, stateNone), nil, "guarded by Len()==0 | no handler | onProcess()==false")
+			}
+		}
 		// the connect task reaches the OnRequest test after OnConnect
 		for _, site := range findIns(ro.task, func(i ssa.Instruction) bool { return userCallbackKind(i) == "OnConnect" }) {
 			isLenRead := func(i ssa.Instruction) bool {
